@@ -132,6 +132,17 @@ def step (s : DState) (toks : List String) : DState × String :=
         let x := Impl.clearAll s.impl ⟨t, t, t, t⟩
         ({ s with impl := x, lastClear := t }, s!"ok {showImpl x}")
   | ["unresolved"] => (s, "timing-unresolved")
+  -- `XdsCacheImpl.Snapshot()`: every typed cache reads all its values through `store.Get`, oldest key first; promoting
+  -- every key in that order restores the recency order, so the state is unchanged (`Impl.snapshot`, `snapshot_id`)
+  | ["snapshot"] =>
+    let x := Impl.snapshot s.impl
+    let n := Ty.all.foldl (fun acc t => acc + (match x.typed t with | some c => c.store.length | none => 0)) 0
+    ({ s with impl := x }, s!"n={n} {showImpl x}")
+  | ["keys", ty] =>
+    let n := match Ty.ofTok ty with
+      | some t => (match s.impl.typed t with | some c => c.store.length | none => 0)
+      | none => 0
+    (s, s!"n={n} {showImpl s.impl}")
   | ["flush"] =>
     let x := Impl.flush s.impl
     ({ s with impl := x }, s!"ok {showImpl x}")
@@ -146,6 +157,7 @@ def step (s : DState) (toks : List String) : DState × String :=
   | ["case", _, _, _] => ({ s with world := true }, "ok")
   | ["pair", _, _] => if s.world then (s, "eq") else bad s
   | ["seq", _] => if s.world then (s, "eq") else bad s
+  | ["pairm", _, _] => if s.world then (s, "eq") else bad s
   -- stream `writers`: the spec side of the writer discipline (theorem `never_stale`): after any sequence of
   -- real request / push / config-dump writers and accepted changes, a reader with the current snapshot gets
   -- from the shared cache what generation from scratch yields
@@ -157,6 +169,9 @@ def step (s : DState) (toks : List String) : DState × String :=
   | ["epnew", _, _] => if s.world then (s, "ok") else bad s
   | ["epdelete", _] => if s.world then (s, "ok") else bad s
   | ["epdelshard", _] => if s.world then (s, "ok") else bad s
+  | ["epprune", _] => if s.world then (s, "ok") else bad s
+  | ["queue"] => if s.world then (s, "ok") else bad s
+  | ["pushstale", id] => if s.conns.contains id then (s, "ok") else bad s
   | ["meshchange", _] => if s.world then (s, "ok") else bad s
   | ["forcepush", _] => if s.world then (s, "ok") else bad s
   | ["dumptypes", id] => if s.conns.contains id then (s, "ok") else bad s
